@@ -4,7 +4,9 @@
 
     [step tk cf s o] is the model of one operation on one token pair (messages
     ConvertCoin / ConvertERC20, a signed Ethereum transaction to the token followed
-    by the PostTxProcessing hook, the bank MsgSend wrapper, the IBC receive / ack /
+    by the PostTxProcessing hook, a signed Ethereum transaction to a contract that holds
+    tokens and makes a LIST of calls (several Transfer logs in one receipt) followed by
+    the hook, the bank MsgSend wrapper, the IBC receive / ack /
     timeout callbacks, toggle, params) against the token oracle [tk];
     [cf = impl] is /repo as it is (after the "fix:" commit 1c369cb), [cf = spec] what the
     property demands (no log-driven mint for externally owned pairs), [cf = pre_fix] the
@@ -19,7 +21,8 @@ Local Open Scope Z_scope.
 (** ** honest token: backing over ALL histories *)
 
 (** For every history of operations (any actors, amounts, order; valid or
-    rejected) starting from a freshly registered pair, in either semantics:
+    rejected; [Batch]: transactions whose receipt carries any number of Transfer logs
+    included) starting from a freshly registered pair, in either semantics:
     coin-origin pair: ERC20 totalSupply <= coins escrowed in the module account;
     token-origin pair: coin supply <= balanceOf(module). *)
 Theorem C10_backing_inv_all_histories :
@@ -169,6 +172,51 @@ Theorem C10_hook_honest_exact_ext :
 Proof. exact hook_honest_exact_ext. Qed.
 Print Assumptions C10_hook_honest_exact_ext.
 
+(** ONE transaction in which a contract ([SCRIPT]) that holds tokens transfers
+    x1, x2, ... > 0 to the module address (calls to the tokens of other registered
+    pairs in between): the receipt carries one Transfer-to-module log per transfer
+    and every log converts its own amount.  Coin-origin pair: exactly X = x1 + x2 + ...
+    tokens of the contract are burned and exactly X escrowed coins are paid to it *)
+Theorem C10_hook_honest_exact_coin_batch :
+  forall (cf : cfg) (s : st ledger) (a : N) (cs : list bcall) (s' : st ledger) (r : N),
+    InvCoin s -> hook_active s -> Forall plain_xfer cs -> let X := zsum (mod_amounts cs) in
+    batch_tx HT cf s a cs = (s', r) ->
+    (r <> OK /\ s' = s) \/
+    (r = OK /\ X <= zget (lbal (tok s)) SCRIPT /\ same_pair s s' /\
+     tok_moves s s' (fun c => - X * ind SCRIPT c) /\ ltotal (tok s') = ltotal (tok s) - X /\
+     coin_moves s s' (fun c => X * ind SCRIPT c - X * ind MODULE c) /\ supply s' = supply s).
+Proof. exact hook_honest_exact_coin_batch. Qed.
+Print Assumptions C10_hook_honest_exact_coin_batch.
+
+(** token-origin pair: X tokens move from the contract to the module, exactly X coins are minted to it *)
+Theorem C10_hook_honest_exact_ext_batch :
+  forall (cf : cfg) (s : st ledger) (a : N) (cs : list bcall) (s' : st ledger) (r : N),
+    InvExt s -> hook_active s -> Forall plain_xfer cs -> hook_ext cf = true ->
+    0 <= zget (cbal s) MODULE -> 0 <= zget (lbal (tok s)) SCRIPT ->
+    let X := zsum (mod_amounts cs) in
+    batch_tx HT cf s a cs = (s', r) ->
+    (r <> OK /\ s' = s) \/
+    (r = OK /\ X <= zget (lbal (tok s)) SCRIPT /\ same_pair s s' /\
+     tok_moves s s' (fun c => X * ind MODULE c - X * ind SCRIPT c) /\ ltotal (tok s') = ltotal (tok s) /\
+     coin_moves s s' (fun c => X * ind SCRIPT c) /\ supply s' = supply s + X).
+Proof. exact hook_honest_exact_ext_batch. Qed.
+Print Assumptions C10_hook_honest_exact_ext_batch.
+
+(** ANY list of calls of the contract (any recipients, tolerated failures): the
+    transaction keeps both backing invariants (these are the [Batch] cases of
+    C10_backing_coin_step / C10_backing_ext_step) *)
+Theorem C10_batch_keeps_backing_coin :
+  forall (cf : cfg) (s : st ledger) (a : N) (cs : list bcall) (s' : st ledger) (r : N),
+    InvCoin s -> batch_tx HT cf s a cs = (s', r) -> InvCoin s' /\ gap s' = gap s.
+Proof. exact coin_batch. Qed.
+Print Assumptions C10_batch_keeps_backing_coin.
+
+Theorem C10_batch_keeps_backing_ext :
+  forall (cf : cfg) (s : st ledger) (a : N) (cs : list bcall) (s' : st ledger) (r : N),
+    InvExt s -> batch_tx HT cf s a cs = (s', r) -> InvExt s'.
+Proof. exact ext_batch. Qed.
+Print Assumptions C10_batch_keeps_backing_ext.
+
 (** finding K7 (known, class erc20:external-token-fake-transfer-log): against a
     registered external token that only emits Transfer(caller, module, 1000) the
     pinned hook mints 1000 coins to the caller: supply 0 -> 1000, nothing escrowed *)
@@ -232,8 +280,8 @@ Theorem C10_nonvacuous_coin_origin :
   fresh coin0 /\ own_mod coin0 = true /\
   codes HT impl coin_history coin0 = [OK; OK; OK; OK; OK; OK; OK; OK; OK; OK; EDisabled] /\
   observe HT (run HT impl coin_history coin0) OK =
-    mkobs OK true false true true [84; 0; 0; 35; 0; 0; 0] 120
-          [Some 0; Some 10; Some 29; Some 40; Some 0; Some 0; Some 0] (Some 79) true /\
+    mkobs OK true false true true [84; 0; 0; 35; 0; 0; 0; 0] 120
+          [Some 0; Some 10; Some 29; Some 40; Some 0; Some 0; Some 0; Some 0] (Some 79) true /\
   holder_burns impl coin_history coin0 = 5.
 Proof. exact (conj coin0_fresh (conj eq_refl coin_history_runs)). Qed.
 Print Assumptions C10_nonvacuous_coin_origin.
@@ -242,10 +290,38 @@ Theorem C10_nonvacuous_token_origin :
   fresh ext0 /\ own_mod ext0 = false /\
   codes HT impl ext_history ext0 = [OK; OK; OK; OK; OK; OK; OK; EOther] /\
   observe HT (run HT impl ext_history ext0) OK =
-    mkobs OK true true true true [0; 65; 10; 0; 0; 0; 0] 75
-          [Some 75; Some 200; Some 125; Some 100; Some 0; Some 0; Some 0] (Some 500) true.
+    mkobs OK true true true true [0; 65; 10; 0; 0; 0; 0; 0] 75
+          [Some 75; Some 200; Some 125; Some 100; Some 0; Some 0; Some 0; Some 0] (Some 500) true.
 Proof. exact (conj ext0_fresh (conj eq_refl ext_history_runs)). Qed.
 Print Assumptions C10_nonvacuous_token_origin.
+
+(** several transfers to the module in ONE transaction: the hypotheses of the two
+    batch theorems are satisfiable and the transaction succeeds (5 + 7 on a coin-origin
+    pair: escrow = totalSupply = 88 afterwards, 12 coins paid to the contract) *)
+Theorem C10_nonvacuous_batch_coin :
+  InvCoin coin_batch_state /\ hook_active coin_batch_state /\ Forall plain_xfer coin_batch_calls /\
+  zsum (mod_amounts coin_batch_calls) = 12 /\
+  snd (step HT impl coin_batch_state (Batch 1 coin_batch_calls)) = OK /\
+  observe HT coin_batch_state OK =
+    mkobs OK true true true true [100; 0; 0; 0; 0; 0; 0; 0] 101
+          [Some 0; Some 88; Some 0; Some 0; Some 0; Some 0; Some 0; Some 12] (Some 100) true /\
+  observe HT (fst (step HT impl coin_batch_state (Batch 1 coin_batch_calls))) OK =
+    mkobs OK true true true true [88; 0; 0; 0; 0; 0; 0; 12] 101
+          [Some 0; Some 88; Some 0; Some 0; Some 0; Some 0; Some 0; Some 0] (Some 88) true.
+Proof. exact coin_batch_runs. Qed.
+Print Assumptions C10_nonvacuous_batch_coin.
+
+Theorem C10_nonvacuous_batch_token_origin :
+  InvExt ext_batch_state /\ hook_active ext_batch_state /\
+  snd (step HT impl ext_batch_state (Batch 2 ext_batch_calls)) = OK /\
+  observe HT (fst (step HT impl ext_batch_state (Batch 2 ext_batch_calls))) OK =
+    mkobs OK true true true true [0; 0; 0; 0; 0; 0; 0; 26] 26
+          [Some 26; Some 450; Some 0; Some 4; Some 0; Some 0; Some 0; Some 20] (Some 500) true /\
+  step HT impl ext_batch_state (Batch 2 [BXfer MODULE 20 false; BXfer MODULE 100 false]) = (ext_batch_state, EVMFail) /\
+  Forall plain_xfer [BXfer MODULE 20 false; BXfer MODULE 6 false] /\
+  snd (step HT impl ext_batch_state (Batch 2 [BXfer MODULE 20 false; BXfer MODULE 6 false])) = OK.
+Proof. exact ext_batch_runs. Qed.
+Print Assumptions C10_nonvacuous_batch_token_origin.
 
 (** a self-destructed token contract: the next conversion only drops the pair *)
 Theorem C10_selfdestructed_pair_dropped :
